@@ -29,6 +29,16 @@ type pool struct {
 	names   []string       // members in the order they were added (removed ones deleted)
 	weight  map[string]int // configured weight as given by the operator (may be < 1)
 	ejected map[string]bool
+	dress   lab.DressPlan // how the requests are dressed (method, headers): no strategy of this property reads them
+	nPick   int
+}
+
+// dressFrom draws how this pool's requests are dressed.
+func (p *pool) dressFrom(rt *rapid.T) { p.dress = lab.DrawDressPlan(rt) }
+
+func (p *pool) nextReq() *http.Request {
+	p.nPick++
+	return p.dress.At(p.nPick).Request("/", "10.0.0.1:4000")
 }
 
 // eff is the statement's "weights below 1 count as 1".
@@ -131,13 +141,17 @@ var sharedReq = pickReq()
 // fake network (the backend that actually received the request).
 func (p *pool) pick(via string) (name string, status int) {
 	if via == "next" {
-		b := p.lb.NextBackend(sharedReq) // none of the three strategies reads the request
+		req := sharedReq // none of the three strategies reads the request
+		if p.dress.Step != 0 {
+			req = p.nextReq()
+		}
+		b := p.lb.NextBackend(req)
 		if b == nil {
 			return "", 0
 		}
 		return b.Name, 0
 	}
-	st, _, hdr, _ := lab.Serve(p.lb, pickReq())
+	st, _, hdr, _ := lab.Serve(p.lb, p.nextReq())
 	host := hdr.Get("X-Backend")
 	if st != 200 || host == "" {
 		return "", st
